@@ -16,11 +16,20 @@ def log(*a):
     print('[vcheck]', *a, file=sys.stderr, flush=True)
 
 
-def sh(cmd, cwd=None, env=None, timeout=3600, check=True, capture=True, input=None):
+def limit_memory(gib=3):
+    """preexec_fn for processes that run code generated from /repo (harness, CLI): a lexer that loops while it logs
+    reads or callbacks must die by allocation failure, not take the machine's memory."""
+    import resource
+    def f():
+        resource.setrlimit(resource.RLIMIT_AS, (gib << 30, gib << 30))
+    return f
+
+
+def sh(cmd, cwd=None, env=None, timeout=3600, check=True, capture=True, input=None, mem_gib=None):
     t0 = time.time()
     r = subprocess.run(cmd, cwd=cwd, env=env or ENV, timeout=timeout, text=True, input=input,
                        stdout=subprocess.PIPE if capture else None, stderr=subprocess.STDOUT if capture else None,
-                       shell=isinstance(cmd, str))
+                       shell=isinstance(cmd, str), preexec_fn=limit_memory(mem_gib) if mem_gib else None)
     if check and r.returncode != 0:
         log('command failed:', cmd if isinstance(cmd, str) else ' '.join(cmd))
         log((r.stdout or '')[-4000:])
